@@ -27,6 +27,7 @@ import (
 
 	"shanhu.io/g/dock"
 	"shanhu.io/g/errcode"
+	"shanhu.io/g/tarutil"
 	"shanhu.io/g/ziputil"
 	"verifharness/hx"
 )
@@ -36,7 +37,7 @@ type Ent struct {
 	K string `json:"k"`           // file | dir | other
 	M uint32 `json:"m"`           // unix permission bits
 	C string `json:"c,omitempty"` // content
-	T string `json:"t,omitempty"` // tar: type flag for "other"
+	T string `json:"t,omitempty"` // tar: type flag for "other"; zip: symlink | fifo | chardev | blockdev | socket
 }
 
 type Node struct {
@@ -45,6 +46,7 @@ type Node struct {
 	M uint32 `json:"m"`
 	C string `json:"c,omitempty"`
 	X string `json:"x,omitempty"` // other kinds: "symlink", "special"
+	L string `json:"l,omitempty"` // symlink target
 }
 
 type Case struct {
@@ -69,6 +71,7 @@ type Case struct {
 	Res     string `json:"res"` // ok | refused | oserr | unsupported | other:<text> | skipped
 	Err     string `json:"err,omitempty"`
 	Out     string `json:"out"`
+	Outs    []string `json:"outs,omitempty"` // tarzip: names in the produced tar stream
 	Crash   string `json:"crash,omitempty"`
 	Sandbox string `json:"sandbox,omitempty"`
 	Mode    string `json:"mode,omitempty"` // chroot | guard
@@ -86,6 +89,22 @@ func unixPerm(m os.FileMode) uint32 {
 		p |= 0o1000
 	}
 	return p
+}
+
+func zipTypeBits(t string) os.FileMode {
+	switch t {
+	case "symlink":
+		return os.ModeSymlink
+	case "fifo":
+		return os.ModeNamedPipe
+	case "chardev":
+		return os.ModeDevice | os.ModeCharDevice
+	case "blockdev":
+		return os.ModeDevice
+	case "socket":
+		return os.ModeSocket
+	}
+	return 0
 }
 
 func fileMode(perm uint32, dir bool) os.FileMode {
@@ -140,7 +159,8 @@ func randName(r *hx.Rng) string {
 }
 
 func randPerm(r *hx.Rng) uint32 {
-	ps := []uint32{0o644, 0o600, 0o755, 0o700, 0o666, 0o777, 0o444, 0o640, 0o750, 0o604, 0o400, 0o775}
+	ps := []uint32{0o644, 0o600, 0o755, 0o700, 0o666, 0o777, 0o444, 0o640, 0o750, 0o604, 0o400, 0o775,
+		0o4755, 0o2755, 0o1777, 0o6711, 0o1644}
 	return ps[r.Intn(len(ps))]
 }
 
@@ -188,6 +208,14 @@ var common = []Node{
 	{P: "destx", D: true, M: 0o755}, {P: "destx/sibling.txt", M: 0o644, C: "sibling"},
 	{P: "work", D: true, M: 0o755},
 	{P: "evil.txt", M: 0o600, C: "pre-existing"},
+	{P: "outdir", D: true, M: 0o755}, {P: "outdir/o.txt", M: 0o644, C: "o"},
+}
+
+// a destination that already holds symbolic links leading out of it
+var linkSetup = []Node{
+	{P: "dest", D: true, M: 0o755}, {P: "dest/keep.txt", M: 0o640, C: "keep"},
+	{P: "dest/link", X: "symlink", L: "../outdir"}, {P: "dest/flink", X: "symlink", L: "../outside.txt"},
+	{P: "dest/inlink", X: "symlink", L: "sub"}, {P: "dest/sub", D: true, M: 0o755},
 }
 
 type destForm struct {
@@ -234,6 +262,50 @@ func genCases(seed uint64, n int, thorough bool) []Case {
 				add(Case{Stream: "names", Op: op, Dest: "%S/dest", Cwd: "/", Umask: 0o22, Setup: setups[2], Entries: []Ent{e}})
 			}
 		}
+	}
+	// entry types: links, devices, fifos, sockets through both extractors.
+	for _, nm := range []string{"t.bin", "sub/t", "../evil.txt", "keep.txt", "lnk"} {
+		for _, t := range []string{"symlink", "fifo", "chardev", "blockdev", "socket"} {
+			add(Case{Stream: "types", Op: "unzip", Dest: "%S/dest", Cwd: "/", Umask: 0o22, Setup: setups[2],
+				Entries: []Ent{{N: "first.txt", K: "file", M: 0o644, C: "1"}, {N: nm, K: "file", T: t, M: 0o777, C: "../outside.txt"},
+					{N: nm + "/through", K: "file", M: 0o644, C: "written through?"}}})
+		}
+		for _, t := range []string{"1", "2", "3", "4", "6", "7"} {
+			add(Case{Stream: "types", Op: "untar", Dest: "%S/dest", Cwd: "/", Umask: 0o22, Setup: setups[2],
+				Entries: []Ent{{N: "first.txt", K: "file", M: 0o644, C: "1"}, {N: nm, K: "other", T: t, M: 0o777},
+					{N: nm + "/through", K: "file", M: 0o644, C: "written through?"}}})
+		}
+	}
+	// a destination that already contains symbolic links (out of scope of the property: observed).
+	for _, op := range []string{"unzip", "untar"} {
+		for _, es := range [][]Ent{
+			{{N: "link/x.txt", K: "file", M: 0o644, C: "via dir link"}},
+			{{N: "link/sub/y.txt", K: "file", M: 0o644, C: "via dir link, new dir"}},
+			{{N: "flink", K: "file", M: 0o600, C: "via file link"}},
+			{{N: "link", K: "file", M: 0o644, C: "onto the link"}},
+			{{N: "link/", K: "dir", M: 0o755}},
+			{{N: "inlink/z.txt", K: "file", M: 0o644, C: "via inner link"}},
+			{{N: "ok.txt", K: "file", M: 0o644, C: "plain"}},
+		} {
+			add(Case{Stream: "dest-links", Op: op, Dest: "%S/dest", Cwd: "/", Umask: 0o22, Setup: linkSetup, Entries: es})
+		}
+	}
+	// writeFirstFileAs: the destination is the caller's; entry names are not used.
+	for _, file := range []string{"%S/dest/out.bin", "%S/dest", "%S/nodir/out.bin", "%S/dest/keep.txt", "%S/dest/../first.out", ""} {
+		for _, es := range [][]Ent{
+			{{N: "../../evil.txt", K: "file", M: 0o640, C: "first"}, {N: "second", K: "file", M: 0o600, C: "second"}},
+			{{N: "d/", K: "dir", M: 0o755}, {N: "l", K: "other", T: "2", M: 0o777}, {N: "/abs/f", K: "file", M: 0o4755, C: "after others"}},
+			{{N: "d/", K: "dir", M: 0o755}},
+			{},
+		} {
+			add(Case{Stream: "firstfile", Op: "firstfile", Dest: file, Cwd: "/", Umask: []int{0o22, 0o77}[len(es)%2], Setup: setups[2], Entries: es})
+		}
+	}
+	// tarutil.TarZipFile: zip entries renamed under a directory inside a tar stream.
+	for _, dir := range []string{"", "ctx", "ctx/sub", "/abs", "ctx/../..", "."} {
+		add(Case{Stream: "tarzip", Op: "tarzip", A: dir, Cwd: "/", Setup: setups[1], Entries: []Ent{
+			{N: "a.txt", K: "file", M: 0o644, C: "a"}, {N: "d/", K: "dir", M: 0o755}, {N: "d/b.txt", K: "file", M: 0o600, C: "b"},
+			{N: "../up.txt", K: "file", M: 0o644, C: "up"}, {N: "/abs.txt", K: "file", M: 0o644, C: "abs"}, {N: "x//y/./z", K: "file", M: 0o644, C: "z"}}})
 	}
 	// generated archives.
 	for i := 0; i < n; i++ {
@@ -285,7 +357,7 @@ func genCases(seed uint64, n int, thorough bool) []Case {
 			}
 			seen[p] = true
 			if r.Intn(3) == 0 {
-				tree = append(tree, Node{P: p, D: true, M: []uint32{0o755, 0o700, 0o775, 0o777, 0o750, 0o711}[r.Intn(6)]})
+				tree = append(tree, Node{P: p, D: true, M: []uint32{0o755, 0o700, 0o775, 0o777, 0o750, 0o711, 0o1777, 0o1755, 0o2755}[r.Intn(9)]})
 				dirs = append(dirs, p)
 			} else {
 				c := fmt.Sprintf("content of %s #%d", p, r.Intn(100))
@@ -399,6 +471,7 @@ func snapshot(base string) []Node {
 		switch {
 		case info.Mode()&os.ModeSymlink != 0:
 			n.X = "symlink"
+			n.L, _ = os.Readlink(p)
 		case !info.IsDir() && !info.Mode().IsRegular():
 			n.X = "special"
 		case info.Mode().IsRegular():
@@ -417,6 +490,15 @@ func subst(s, sb string) string { return strings.ReplaceAll(s, "%S", sb) }
 func writeTree(base string, nodes []Node) error {
 	for _, n := range nodes {
 		p := filepath.Join(base, filepath.FromSlash(n.P))
+		if n.X == "symlink" {
+			if err := os.MkdirAll(filepath.Dir(p), 0o755); err != nil {
+				return err
+			}
+			if err := os.Symlink(n.L, p); err != nil {
+				return err
+			}
+			continue
+		}
 		if n.D {
 			if err := os.MkdirAll(p, 0o755); err != nil {
 				return err
@@ -447,6 +529,8 @@ func projErr(err error) (string, string) {
 	switch {
 	case errcode.IsInvalidArg(err):
 		return "refused", s
+	case errcode.IsNotFound(err):
+		return "notfound", s
 	case strings.Contains(s, "not supported"):
 		return "unsupported", s
 	}
@@ -467,7 +551,7 @@ func buildZip(es []Ent, sb string) ([]byte, error) {
 	zw := zip.NewWriter(&buf)
 	for _, e := range es {
 		h := &zip.FileHeader{Name: subst(e.N, sb), Method: zip.Deflate}
-		h.SetMode(fileMode(e.M, e.K == "dir"))
+		h.SetMode(fileMode(e.M, e.K == "dir") | zipTypeBits(e.T))
 		w, err := zw.CreateHeader(h)
 		if err != nil {
 			return nil, err
@@ -632,6 +716,9 @@ func runCase(c *Case, root string, chrooted bool) {
 	c.Cwd = filepath.Clean(cwd)
 	c.Dest = dest
 	c.DestAbs = sb + "/dest"
+	if c.Op == "firstfile" && dest != "" {
+		c.DestAbs = filepath.Clean(dest)
+	}
 
 	var archive []byte
 	var err error
@@ -652,6 +739,10 @@ func runCase(c *Case, root string, chrooted bool) {
 			err = ziputil.ZipDir(sb+"/tree", &buf)
 			archive = buf.Bytes()
 		}
+	case "firstfile":
+		archive, err = buildTar(c.Entries, sb)
+	case "tarzip":
+		archive, err = buildZip(c.Entries, sb)
 	case "zipfile":
 		if err = writeTree(sb+"/tree", c.Tree); err == nil {
 			var buf bytes.Buffer
@@ -663,8 +754,26 @@ func runCase(c *Case, root string, chrooted bool) {
 		c.Res = "other:build " + err.Error()
 		return
 	}
+	if c.Op == "tarzip" {
+		zp := sb + "/in.zip"
+		if err := os.WriteFile(zp, archive, 0o644); err != nil {
+			c.Res = "other:setup " + err.Error()
+			return
+		}
+		var buf bytes.Buffer
+		tw := tar.NewWriter(&buf)
+		err := tarutil.TarZipFile(tw, zp, c.A)
+		tw.Close()
+		c.Res, c.Err = projErr(err)
+		zr0, _ := zip.NewReader(bytes.NewReader(archive), int64(len(archive)))
+		c.Seen = seenZip(zr0)
+		for _, e := range seenTar(buf.Bytes()) {
+			c.Outs = append(c.Outs, e.N)
+		}
+		return
+	}
 	var zr *zip.Reader
-	if c.Op != "untar" {
+	if c.Op != "untar" && c.Op != "firstfile" {
 		zr, err = zip.NewReader(bytes.NewReader(archive), int64(len(archive)))
 		if err != nil {
 			c.Res = "other:reader " + err.Error()
@@ -684,6 +793,8 @@ func runCase(c *Case, root string, chrooted bool) {
 	switch c.Op {
 	case "untar":
 		err = dock.VerifWriteTarToDir(bytes.NewReader(archive), dest)
+	case "firstfile":
+		err = dock.VerifWriteFirstFileAs(bytes.NewReader(archive), dest)
 	default:
 		err = ziputil.UnzipDir(dest, zr, c.Clear)
 	}
